@@ -90,6 +90,26 @@ def main():
         cty = re.search(r"(\{closure@[^}]*\})", m.group(0)).group(1)
         return ["mapiter", a[0], cty, a[1]]
 
+    def m_iter_flat_map(e, m, a):
+        """flat_map / filter_map over the elements: the mapped Result / Option is flattened (Err / None items vanish)"""
+        return ["flatmapiter", a[0], a[1], m.group(0)]
+
+    def m_collect_flat(e, m, a):
+        it = a[0]
+        inner, f, callee = it[1], it[2], it[3]
+        out = []
+        for ref in inner[1][inner[2]:]:
+            if isinstance(f, tuple) and f[0] == "fnitem":
+                r = e.call(f[1], [ref])
+            else:
+                cty = re.search(r"(\{closure@[^}]*\})", callee).group(1)
+                r = e.call_fn(e.closure_fn(cty), [Ref({0: f}, 0, ()), ref])
+            if isinstance(r, tuple) and r[0] == "Some":
+                out.append(r[1])
+            elif isinstance(r, tuple) and r[0] == "enum" and r[1].endswith("Ok"):
+                out.append(r[2][0])
+        return ("vec", out)
+
     def m_collect_result_vec(e, m, a):
         it = a[0]
         out = []
@@ -167,6 +187,8 @@ def main():
         (r"^<Vec<objects::Value> as Deref>::deref$", lambda e, m, a: a[0]),
         (r"^core::slice::<impl \[objects::Value\]>::iter$", m_slice_iter),
         (r"^<std::slice::Iter<'_, objects::Value> as Iterator>::map::<.*>$", m_iter_map),
+        (r"^<std::slice::Iter<'_, objects::Value> as Iterator>::(?:flat_map|filter_map)::<.*>$", m_iter_flat_map),
+        (r"^<(?:FlatMap|FilterMap|std::iter::FlatMap|std::iter::FilterMap)<std::slice::Iter<'_, objects::Value>, .*> as Iterator>::collect::<Vec<serde_json::Value>>$", m_collect_flat),
         (r"^<std::iter::Map<std::slice::Iter<'_, objects::Value>, \{closure@[^}]*\}> as Iterator>::collect::<std::result::Result<Vec<serde_json::Value>, ConvertToJsonError<'_>>>$", m_collect_result_vec),
         (r"^<std::result::Result<.*> as Try>::branch$", m_try_branch),
         (r"^<std::result::Result<.*> as FromResidual<std::result::Result<Infallible, ConvertToJsonError<'_>>>>::from_residual$", lambda e, m, a: ("enum", "Result::Err", [a[0][2][0]])),
